@@ -211,6 +211,11 @@ _s.model_match = lambda case, model, impl: (impl.endswith(' ITS-TIMEOUT-FIRED') 
 _s.py_judge = judge
 _s.valid_case = valid_case
 
+def extra(tier, seed, rng, res, broken):
+    """the search behind drop_counter_exact: producers on several real threads failing to enqueue at the same moments"""
+    from checks import stressgen
+    stressgen.stress_phase('lossycount', tier, res, broken, seed)
+
 PROPERTY = {
     'manifest': {
         'text': "Lean 4 theorems over a transition system of the channel operations and the underlying writer's call completions (any number of producers and lines, any capacity, lossy and non-lossy, every interleaving, every fault "
@@ -227,7 +232,8 @@ PROPERTY = {
     'lean_module': 'TracingModel.Props.C15',
     'namespace': 'C15',
     'units': ['NonBlockingFacts'],
-    'required_theorems': ['C15.code_facts', 'C15.fifo_exactly_once', 'C15.written_in_order', 'C15.accounting', 'C15.drain_on_drop', 'C15.shutdown_not_masked', 'C15.f13_witness'],
+    'required_theorems': ['C15.drop_counter_exact', 'C15.drop_counter_lost_witness', 'C15.code_facts', 'C15.fifo_exactly_once', 'C15.written_in_order', 'C15.accounting', 'C15.drain_on_drop', 'C15.shutdown_not_masked', 'C15.f13_witness'],
+    'extra_bins': ['h_stress'],
     'streams': [_s],
     'rule': 'one case = one process: capacity 1/2/3/128, lossy or not, 8-30 scripted steps: offers from 4 producers (incl. into a full queue, on a blocked background producer, after the worker has left), the underlying '
             'writer\'s write_all / flush released one call at a time with a scripted result, the guard dropped at a random point, then drained; compared = per step the outcome (accepted / dropped / refused, which line the '
